@@ -387,6 +387,8 @@ func (db *SingleBucketBackend) PutObject(
 		}
 		if !renamed {
 			db.fs.Remove(tmpFilePath)
+			// a refused upload must not leave the directories created for it behind:
+			removeEmptyParents(db.fs, "", objectName)
 		}
 	}()
 
